@@ -532,7 +532,7 @@ def loweringRequests (c : Ctx) (j : Journal) : List (Int × Int) :=
 /-- The other direction: a scan that decided it needs `want ≥ 1` more nodes (group unlocked, node count within bounds)
     brings exactly that many into service unless the bound or a refused/failed cloud request stops it: after `u`
     accepted untaints it must ask the cloud for `min(want − u, bound − current desired)` when that is positive. -/
-def C07.shortfall (c : Ctx) (want : Int) (j : Journal) (stillTainted : List String := []) : List String :=
+def C07.shortfall (c : Ctx) (want : Int) (j : Journal) (stillTainted : List String := []) (dupTainted : List String := []) : List String :=
   let n : Int := c.view.nodes.length
   if c.dry || want < 1 || lockHeld c.st.lock c.cfg.coolNs c.nowReal || n < c.st.minEff || n > c.st.maxEff then []
   else
@@ -542,7 +542,10 @@ def C07.shortfall (c : Ctx) (want : Int) (j : Journal) (stillTainted : List Stri
     let fetched := (j.filterMap (fun e => match e.call with | .getNode x => if e.ok && taintedNames.contains x then some x else none | _ => none)).eraseDups
     let failedUpd := j.filterMap (fun e => match e.call with | .updateNode o => if e.ok then none else some o.name | _ => none)
     -- ... and a node whose fetched copy still carried the taint counts only if an UPDATE of it was accepted
-    let okUpd := okUpdateNames j
+    -- … and only if what was written no longer carries it (a node fetched with two escalator taints keeps one: `dupTainted`)
+    let okUpd := j.filterMap (fun e => match e.call with
+      | .updateNode o => if e.ok && (!hasTaint escKey o || dupTainted.contains o.name) then some o.name else none
+      | _ => none)
     let u : Int := (fetched.filter (fun x => !failedUpd.contains x && (!stillTainted.contains x || okUpd.contains x))).length
     let cur : Int := c.g.asg.desired - okDecs j
     let bnd : Int := if c.st.maxEff < c.g.asg.max then c.st.maxEff else c.g.asg.max
